@@ -83,6 +83,17 @@ impl SymbolTable {
         }
     }
 
+    /// Canonical text of all contexts, scopes and names (verification harness only).
+    #[cfg(feature = "verif")]
+    pub fn verif_dump(&self) -> String {
+        let mut s = String::new();
+        for c in &self.contexts {
+            s.push_str(if c.scope == Scope::Global { "G" } else { "L" });
+            s.push_str(&format!("{}{:?}", c.max_size, c.symbols));
+        }
+        s
+    }
+
     /// Returns a mutable reference to the current context
     fn current_context(&mut self) -> &mut Context {
         self.contexts.last_mut().unwrap()
